@@ -281,6 +281,9 @@ func join(basePath *url.URL, relativePath *url.URL) *url.URL {
 	}
 	newPath := *basePath
 	newPath.Path = path.Join(path.Dir(newPath.Path), relativePath.Path)
+	newPath.RawPath = ""
+	// the query belongs to the location it was written with: the reference's, not the base's
+	newPath.RawQuery = relativePath.RawQuery
 	return &newPath
 }
 
